@@ -299,8 +299,12 @@ Visible(S, t, u) == (Seqs(S, t) \ HardDel(S, t)) \ SoftDel(S, t, u)
 RECURSIVE Newest(_, _)
 Newest(X, k) == IF k = 0 \/ X = {} THEN {} ELSE LET m == CHOOSE x \in X : \A y \in X : y <= x IN {m} \cup Newest(X \ {m}, k - 1)
 
+\* a root session that asks on behalf of user X while it is attached to the topic on behalf of somebody else (or as itself):
+\* the property speaks of "an attached user"; what such a request should see is not stated, so it is not judged
+OboMismatch(pre, a) == "obo" \in DOMAIN a /\ a.obo # "" /\ a.t \in M(pre.sess[a.s].subs)
+                       /\ ~(\E x \in AttOf(pre.cache[a.t]) : x.s = a.s /\ x.u = a.obo)
 M_C04(pre, a, obs, post) ==
-  IF ~IsReq(a) THEN {} ELSE
+  IF ~IsReq(a) \/ OboMismatch(pre, a) THEN {} ELSE
   LET t == a.t  u == Actor(a)
       row == IF "chan" \in DOMAIN a /\ a.chan THEN pre.csubs[t][u] ELSE pre.subs[t][u]
       mode == IF row.st = "live" THEN Eff(row) ELSE {}
